@@ -170,10 +170,15 @@ def ev_kinds(case, ctx):
         _write(f, base, hdr)
         for factor in (2, 3):
             fc = f + ".c%d.fits" % factor
-            fits_tools.compress(f, factor, outfile=fc)
-            ex = fits_tools.expand(fc)
-            full = np.array(ex[0].data)
-            fh = dict(ex[0].header)
+            try:
+                fits_tools.compress(f, factor, outfile=fc)
+                ex = fits_tools.expand(fc)
+                full = np.array(ex[0].data)
+                fh = dict(ex[0].header)
+            except Exception as e:
+                ctx.violation("compressed file (rows=%d, factor=%d) cannot be expanded: %r" % (rows, factor, e),
+                              "compressed_raise|rows=%d,f=%d" % (rows, factor))
+                continue
             if full.shape != base.shape:
                 ctx.violation("expand of compressed (rows=%d, factor=%d) has shape %r" % (rows, factor, full.shape),
                               "compressed_shape|rows=%d,f=%d" % (rows, factor))
